@@ -2,7 +2,7 @@
 """tools/autoref.py <transformation>  -- apply one mechanical, behaviour-preserving rewrite to EVERY module of /repo/src/soundevent (in
 memory) and run all 20 checks on the result; prints the checks that report or lose their footing (none is the expected answer).
 Transformations: or2ifexp, isnotnone, swapifelse, guard2nested, returntemp, early2else, append2aug, flipcmp, demorgan, kw2spread,
-comp2loop, comp2temp, renamelocals, ifexp2stmt, chaincmp, notin, sortkw, dict2call, isinstsplit, fstr2format, pos2kw, inlinetemp, unpacksplit, max2ifexp, range2while, fstr2join.  A development aid, not part of any registered check."""
+comp2loop, comp2temp, renamelocals, ifexp2stmt, chaincmp, notin, sortkw, dict2call, isinstsplit, fstr2format, pos2kw, inlinetemp, unpacksplit, max2ifexp, range2while, fstr2join, tail2helper, guards2helper.  A development aid, not part of any registered check."""
 import ast, os, sys, importlib, copy
 sys.path.insert(0,'/verif')
 from sa.cli import run_rules
@@ -429,7 +429,118 @@ class FStringToJoin(ast.NodeTransformer):
         items = [ast.Call(func=ast.Name(id="str", ctx=ast.Load()), args=[v.value], keywords=[]) for v in vals[0::2]]
         return ast.copy_location(ast.Call(func=ast.Attribute(value=ast.Constant(value=seps.pop()), attr="join", ctx=ast.Load()), args=[ast.List(elts=items, ctx=ast.Load())], keywords=[]), n)
 
-TR = {"max2ifexp": MaxMinToIfExp, "range2while": RangeToWhile, "fstr2join": FStringToJoin, "inlinetemp": InlineTemp, "unpacksplit": UnpackSplit, "renamelocals": RenameLocals, "ifexp2stmt": IfExpAssignToStmt, "chaincmp": ChainCompare, "notin": NotInToNot, "sortkw": SortKeywords, "dict2call": DictLiteralToCall, "isinstsplit": IsinstanceSplit, "fstr2format": FStringToFormat, "pos2kw": PositionalToKeyword, "kw2spread": KwToDictSpread, "comp2loop": CompAssignToLoop, "comp2temp": CompToTemp, "returntemp": ReturnTemp, "early2else": EarlyReturnToElse, "append2aug": AppendToAug, "flipcmp": FlipCompare, "demorgan": DeMorgan, "or2ifexp": OrToIfExp, "swapifelse": SwapIfElse, "isnotnone": IsNotNone, "guard2nested": GuardToNested}
+class TailToHelper(ast.NodeTransformer):
+    """extract-function: the closing `return <expression>` of every module-level function / method becomes
+    `return _tail_<name>(<the locals the expression reads>)`, with the expression moved into a new private module-level function
+    placed in front of its user (helpers read globals at call time, so the position does not matter to them)"""
+    def visit_Module(self, n):
+        out = []
+        for st in n.body:
+            helpers = []
+            if isinstance(st, ast.FunctionDef):
+                self._do(st, st.name, helpers)
+            elif isinstance(st, ast.ClassDef):
+                for m in st.body:
+                    if isinstance(m, ast.FunctionDef):
+                        self._do(m, f"{st.name}_{m.name}", helpers)
+            out += helpers
+            out.append(st)
+        n.body = out
+        return n
+
+    def _do(self, fn, label, helpers):
+        if not fn.body or not isinstance(fn.body[-1], ast.Return) or fn.body[-1].value is None or fn.name.startswith("__"):
+            return
+        ex = fn.body[-1].value
+        if isinstance(ex, (ast.Constant, ast.Name)) or any(isinstance(x, (ast.NamedExpr, ast.Yield, ast.YieldFrom, ast.Await)) for x in ast.walk(ex)):
+            return
+        if any(isinstance(x, (ast.Yield, ast.YieldFrom)) for x in ast.walk(fn)):
+            return
+        if any(isinstance(x, ast.Name) and x.id in ("super", "locals", "vars", "__class__") for x in ast.walk(ex)):
+            return
+        inside = {id(x) for x in ast.walk(ex)}
+        a = fn.args
+        bound = {x.arg for x in a.posonlyargs + a.args + a.kwonlyargs}
+        if a.vararg:
+            bound.add(a.vararg.arg)
+        if a.kwarg:
+            bound.add(a.kwarg.arg)
+        for x in ast.walk(fn):
+            if id(x) in inside:
+                continue
+            if isinstance(x, ast.Name) and isinstance(x.ctx, ast.Store):
+                bound.add(x.id)
+            elif isinstance(x, (ast.FunctionDef, ast.ClassDef)) and x is not fn:
+                bound.add(x.name)
+            elif isinstance(x, ast.alias):
+                bound.add((x.asname or x.name).split(".")[0])
+            elif isinstance(x, ast.ExceptHandler) and x.name:
+                bound.add(x.name)
+            elif isinstance(x, (ast.Global, ast.Nonlocal)):
+                return
+        inner = {x.id for x in ast.walk(ex) if isinstance(x, ast.Name) and isinstance(x.ctx, ast.Store)} | {
+            y.arg for x in ast.walk(ex) if isinstance(x, ast.Lambda) for y in x.args.posonlyargs + x.args.args + x.args.kwonlyargs}
+        if inner & bound:
+            return  # a comprehension / lambda variable of the expression shares its name with a local: leave the function alone
+        free = []
+        for x in ast.walk(ex):
+            if isinstance(x, ast.Name) and isinstance(x.ctx, ast.Load) and x.id in bound and x.id not in free:
+                free.append(x.id)
+        free.sort()
+        hname = f"_tail_{label}"
+        helper = ast.FunctionDef(name=hname, args=ast.arguments(posonlyargs=[], args=[ast.arg(arg=v) for v in free], vararg=None, kwonlyargs=[],
+                                                                  kw_defaults=[], kwarg=None, defaults=[]),
+                                 body=[ast.Return(value=ex)], decorator_list=[], returns=None, type_comment=None, type_params=[])
+        helpers.append(ast.copy_location(helper, fn))
+        fn.body[-1] = ast.copy_location(ast.Return(value=ast.Call(func=ast.Name(id=hname, ctx=ast.Load()),
+                                                                   args=[ast.Name(id=v, ctx=ast.Load()) for v in free], keywords=[])), fn.body[-1])
+
+class GuardsToHelper(ast.NodeTransformer):
+    """extract-function: the leading run of `if <test>: raise ...` statements of a module-level function / method becomes one call
+    `_check_<name>(<the parameters the tests and messages read>)` of a new private module-level function holding those statements"""
+    def visit_Module(self, n):
+        out = []
+        for st in n.body:
+            helpers = []
+            if isinstance(st, ast.FunctionDef):
+                self._do(st, st.name, helpers)
+            elif isinstance(st, ast.ClassDef):
+                for m in st.body:
+                    if isinstance(m, ast.FunctionDef):
+                        self._do(m, f"{st.name}_{m.name}", helpers)
+            out += helpers
+            out.append(st)
+        n.body = out
+        return n
+
+    def _do(self, fn, label, helpers):
+        body = fn.body
+        k0 = 1 if body and isinstance(body[0], ast.Expr) and isinstance(body[0].value, ast.Constant) and isinstance(body[0].value.value, str) else 0
+        k = k0
+        while k < len(body) and isinstance(body[k], ast.If) and not body[k].orelse and all(isinstance(x, ast.Raise) for x in body[k].body):
+            k += 1
+        run = body[k0:k]
+        if not run or k == len(body) or fn.name.startswith("__"):
+            return
+        if any(isinstance(x, (ast.NamedExpr, ast.Yield, ast.YieldFrom, ast.Await, ast.Lambda, ast.ListComp, ast.SetComp, ast.DictComp, ast.GeneratorExp))
+               for st in run for x in ast.walk(st)):
+            return
+        if any(isinstance(x, ast.Name) and x.id in ("super", "locals", "vars", "__class__") for st in run for x in ast.walk(st)):
+            return
+        if any(isinstance(x, ast.Raise) and x.exc is None for st in run for x in ast.walk(st)):
+            return
+        a = fn.args
+        params = [x.arg for x in a.posonlyargs + a.args + a.kwonlyargs] + ([a.vararg.arg] if a.vararg else []) + ([a.kwarg.arg] if a.kwarg else [])
+        free = sorted({x.id for st in run for x in ast.walk(st) if isinstance(x, ast.Name) and isinstance(x.ctx, ast.Load) and x.id in params})
+        hname = f"_check_{label}"
+        helper = ast.FunctionDef(name=hname, args=ast.arguments(posonlyargs=[], args=[ast.arg(arg=v) for v in free], vararg=None, kwonlyargs=[],
+                                                                  kw_defaults=[], kwarg=None, defaults=[]),
+                                 body=run, decorator_list=[], returns=None, type_comment=None, type_params=[])
+        helpers.append(ast.copy_location(helper, fn))
+        call = ast.Expr(value=ast.Call(func=ast.Name(id=hname, ctx=ast.Load()), args=[ast.Name(id=v, ctx=ast.Load()) for v in free], keywords=[]))
+        fn.body = body[:k0] + [ast.copy_location(call, run[0])] + body[k:]
+
+TR = {"guards2helper": GuardsToHelper, "tail2helper": TailToHelper, "max2ifexp": MaxMinToIfExp, "range2while": RangeToWhile, "fstr2join": FStringToJoin, "inlinetemp": InlineTemp, "unpacksplit": UnpackSplit, "renamelocals": RenameLocals, "ifexp2stmt": IfExpAssignToStmt, "chaincmp": ChainCompare, "notin": NotInToNot, "sortkw": SortKeywords, "dict2call": DictLiteralToCall, "isinstsplit": IsinstanceSplit, "fstr2format": FStringToFormat, "pos2kw": PositionalToKeyword, "kw2spread": KwToDictSpread, "comp2loop": CompAssignToLoop, "comp2temp": CompToTemp, "returntemp": ReturnTemp, "early2else": EarlyReturnToElse, "append2aug": AppendToAug, "flipcmp": FlipCompare, "demorgan": DeMorgan, "or2ifexp": OrToIfExp, "swapifelse": SwapIfElse, "isnotnone": IsNotNone, "guard2nested": GuardToNested}
 which = sys.argv[1]
 overlay = {}
 for dp, dn, fn in os.walk('/repo/src/soundevent'):
